@@ -242,3 +242,39 @@ def closure(ro: bool, lo: bool, so: bool, s: int) -> bool:
     P_.sample({"driver": SEL.get("drv", "h5"), "start": start, "flags": flags})
     return P_.native_call("vt.harness.c15_real", "closure_native", SEL.get("drv", "h5"), start, flags[0], flags[1], flags[2],
                           SEL.get("depth", 2))
+
+
+def meta_raw(ro: bool, lo: bool, so: bool, s: int) -> bool:
+    """
+    pre: 0 <= s < 5
+    post: _
+    """
+    # MetadorMeta.values()/items() of a restricted node: no unwrapped raw node (whose .file/.parent are the
+    # unrestricted raw objects) may be handed out. Kept in a partition of its own (known finding).
+    flags = (True if ro else False, True if lo else False, True if so else False)
+    start = None
+    for i in range(len(STARTS)):
+        if s == i:
+            start = STARTS[i]
+    reach()
+    return P_.native_call("vt.harness.c15_real", "meta_raw_native", SEL.get("drv", "h5"), start, flags[0], flags[1], flags[2])
+
+
+def meta_raw_native(drvname, start, ro, lo, so):
+    drv, mc = build(drvname)
+    n = mc[start] if start != "/" else mc["/"]
+    n = n.restrict(read_only=ro, local_only=lo, skel_only=so)
+    ok = True
+    if ro or lo or so:
+        for nm, f in (("values", lambda: list(n.meta.values())), ("items", lambda: [v for _, v in n.meta.items()])):
+            try:
+                vals = f()
+            except REFUSED:
+                continue
+            for v in vals:
+                raw = getattr(v, "node", None)
+                if raw is not None and not isinstance(raw, MetadorNode):
+                    note(("meta.%s() of a restricted node hands out a raw bookkeeping node" % nm, start, getattr(raw, "name", "?")))
+                    ok = False
+    mc.close()
+    return ok
